@@ -58,11 +58,24 @@ impl<I: Interner> SpecializationPriorities<I> {
         self.map[&impl_id]
     }
 
-    /// Store the priority of an impl (used during construction).
-    /// Panics if we have already stored the priority for this impl.
-    fn insert(&mut self, impl_id: ImplId<I>, p: SpecializationPriority) {
-        let old_value = self.map.insert(impl_id, p);
-        assert!(old_value.is_none());
+    /// Store the priority of an impl (used during construction). An impl can be
+    /// reached along several specialization chains (e.g. `impl<T> Foo for T`,
+    /// `impl<T> Foo for Vec<T>`, `impl Foo for Vec<i32>`: the last one specializes
+    /// both others); it keeps the highest priority, so that it outranks every
+    /// impl it specializes. Returns false if the stored priority was already at
+    /// least `p`.
+    fn insert(&mut self, impl_id: ImplId<I>, p: SpecializationPriority) -> bool {
+        match self.map.get_mut(&impl_id) {
+            Some(old) if *old >= p => false,
+            Some(old) => {
+                *old = p;
+                true
+            }
+            None => {
+                self.map.insert(impl_id, p);
+                true
+            }
+        }
     }
 }
 
@@ -138,7 +151,10 @@ where
             let impl_id = forest
                 .node_weight(idx)
                 .expect("index should be a valid index into graph");
-            map.insert(*impl_id, SpecializationPriority(p));
+            if !map.insert(*impl_id, SpecializationPriority(p)) {
+                // Already visited along a chain at least as long: nothing below can improve.
+                return;
+            }
         }
 
         // TypeVisitable all children of this node, setting their priority to this + 1
